@@ -87,6 +87,8 @@ class Gen:
                 big = r.chance(1, 2)
                 ty = r.choice([0x16, 0x17, 0x19, 0x1a, 0x20, 0x0c, 0x05, 0x0e, 0x38]) if big else (r.choice(self.types_sized) if r.chance(3, 4) else r.choice(self.types_zero))
                 data = [r.below(256) for _ in range(r.below(4))]
+                if r.chance(1, 14):          # long messages: around the default packet capacity and up to the 127-byte limit at this depth
+                    data = [r.below(256) for _ in range(r.choice([55, 56, 57, 58, 59, 60, 61, 100, 118, 119, 120, 121]))]
                 ev.append(("send", n, ty, data))
                 if self.info[ty][1] > 0: outstanding[n].append(ty)
             elif k < 80:
@@ -111,6 +113,12 @@ class Gen:
                     for q in outstanding.values(): q.clear()
             elif k < 92:
                 ev.append(("flush",))
+            elif self.stalls and r.chance(1, 6) and not any(e[0] == "burst" for e in ev):
+                # a long hold: more than 32 (up to 70) messages submitted to one node while it, or an ancestor, is stalled
+                tgt = n[:r.range(1, len(n))] if len(n) > 1 and r.chance(1, 2) else n
+                ev.append(("up", tgt, 0, 0x8E, [1])); ev.append(("burst",))
+                for i in range(r.range(33, 70)):
+                    ev.append(("send", n, r.choice(self.types_zero) if r.chance(3, 4) else r.choice(self.types_sized), [i & 255]))
             elif self.stalls:
                 tgt = r.choice(nodes)
                 if r.chance(1, 2) and len(tgt) > 0: tgt = tgt[:r.range(1, len(tgt))]
@@ -138,6 +146,7 @@ def script_of(cid, ev):
         elif e[0] == "flush": L.append("flush")
         elif e[0] == "seqon": L.append("seqon %d" % e[1])
         elif e[0] == "reset": L.append("reset_nodes")
+        elif e[0] == "burst": pass
         L.append("mark %d" % i)
     L.append("flush"); L.append("mark end")
     return L
